@@ -93,6 +93,7 @@ NsOps == << NsOp(<<>>, Named(<<"q">>)), NsOp(<<3, 5>>, Named(<<"a">>)), NsOp(<<7
             NsOp(<<3, 5, 9>>, Bin("union", Named(<<"a">>), Named(<<"c">>))), NsOp(<<20>>, Named(<<"m">>)),
             NsOp(<<5, 3>>, NoE),     \* a node-set handed over in reverse document order
             NsOp(<<5, 9, 3, 7>>, NoE), NsOp(<<9, 3, 12, 5>>, NoE),   \* ... and in no order at all: the first node in document order (3) sits in the middle
+            NsOp(<<3, 12, 5, 9>>, NoE),                              \* ... or comes first and is followed by a descent
             NsOp(<<24, 26>>, Named(<<"x">>)), NsOp(<<28, 30>>, Named(<<"y">>)), NsOp(<<32, 34>>, Named(<<"w">>)),
             NsOp(<<36, 38>>, Named(<<"h">>)), NsOp(<<40, 42, 44>>, Named(<<"g">>)), NsOp(<<40, 44>>, NoE) >>
 CmpNums == SubSeq(NumOps, 1, 13) \o <<NumOp(R(3, 2)), NumOp(R(1, 2))>>
@@ -121,13 +122,14 @@ Odd == << <<"I","n","f","i","n","i","t","y">>, <<"-","I","n","f","i","n","i","t"
 PoolA == CASE Family = "C05" -> AllOps
            [] Family = "C06" -> NumOps \o NsOps
            [] Family = "C04n" -> NumOps
+           [] Family = "C04v" -> NsOps
            [] Family = "C04s" -> SeqsOf(NumAlpha, H1) \o Odd
            [] Family = "C07u" -> SeqsOf(StrAlpha, H1)
            [] Family \in {"C07b", "C07t"} -> SeqsOf({"a", "b", "w2"}, 3)
            [] Family = "C07s" -> << <<"a", "w2", "b", "w4", "c">>, <<"1", "2", "3", "4", "5">>, <<>>, <<"w3", "cm">> >>
 PoolB == CASE Family = "C05" -> AllOps
            [] Family = "C06" -> NumOps \o NsOps
-           [] Family = "C04n" -> <<0>>
+           [] Family \in {"C04n", "C04v"} -> <<0>>
            [] Family = "C04s" -> SeqsOf(NumAlpha, H2)
            [] Family = "C07u" -> SeqsOf(StrAlpha, H2)
            [] Family \in {"C07b", "C07t"} -> SeqsOf({"a", "b", "w2"}, 3)
@@ -314,7 +316,29 @@ ASSUME Round(R(-1, 2)) = Zero(-1) /\ Round(R(5, 2)) = NInt(3) /\ Round(R(-5, 2))
 ASSUME Mod(NInt(5), NInt(2)) = NInt(1) /\ Mod(NInt(5), NInt(-2)) = NInt(1) /\ Mod(NInt(-5), NInt(2)) = NInt(-1) /\ Mod(NInt(-5), NInt(-2)) = NInt(-1)
 ASSUME Mod(R(11, 2), NInt(2)) = R(3, 2)
 
-Cases == CASE Family = "C05" -> C05Cases [] Family = "C06" -> C06Cases [] Family = "C04n" -> C04nCases [] Family = "C04s" -> C04sCases
+(***************************************************************************)
+(* C04v: node-sets -> string / number / boolean.  The node-set is handed   *)
+(* over by the caller (variable $x, or returned by the function pk()) in   *)
+(* the order of the pool entry - ascending, descending or neither; its     *)
+(* string is the string-value of the node that is FIRST IN DOCUMENT ORDER. *)
+(***************************************************************************)
+EnvV(x) == [ns |-> <<>>, vars |-> <<Bind(<<"x">>, x)>>, funcs |-> <<[sp |-> <<>>, lo |-> <<"p","k">>, kind |-> "const", val |-> x]>>]
+Pk == Call(<<"p","k">>, <<>>)
+C04vLaws == (Ready /\ Family = "C04v") =>
+  LET A == NsOps[a] env == EnvV(A.val) ids == ToSet(A.val.v) IN
+  /\ EvalIn(env, F1(S_boolean, XVar)) = BoolV(ids # {})
+  /\ EvalIn(env, F1(S_string, XVar)) = StrV(IF ids = {} THEN <<>> ELSE StringValue(VDoc, MinOf(ids)))
+  /\ EvalIn(env, F1(S_string, Pk)) = EvalIn(env, F1(S_string, XVar))
+  /\ EvalIn(env, F1(S_number, XVar)) = EvalIn(env, F1(S_number, F1(S_string, XVar)))
+C04vCases == LET A == NsOps[a] env == EnvV(A.val) IN
+  << Obj(env, F1(S_string, XVar)), Obj(env, F1(S_number, XVar)), Obj(env, F1(S_boolean, XVar)), Obj(env, F1(S_len, XVar)), Obj(env, F2(S_concat, XVar, Lit(<<"!">>))),
+     Obj(env, NegE(XVar)), Obj(env, Bin("add", XVar, IntE(0))), Obj(env, F1(<<"n","a","m","e">>, XVar)), Obj(env, F1(<<"l","o","c","a","l","-","n","a","m","e">>, XVar)),
+     Obj(env, F2(S_sw, XVar, Lit(<<"1">>))), Obj(env, F1(S_norm, XVar)), Obj(env, F1(S_not, XVar)), Obj(env, F1(S_round, XVar)),
+     Obj(env, F1(S_string, Pk)), Obj(env, F1(S_number, Pk)), Obj(env, F1(S_boolean, Pk)), Obj(env, F2(S_sa, Pk, Lit(<<"1">>))), Obj(env, Bin("mul", Pk, IntE(2))),
+     Obj(env, F3(S_tr, XVar, Lit(<<"1">>), Lit(<<"9">>))), Obj(env, F3(S_sub, Lit(<<"a","b","c">>), XVar, IntE(1))) >>
+  \o (IF A.e.op # "none" THEN << Obj(env, F1(S_string, A.e)), Obj(env, F1(S_number, A.e)), Obj(env, F1(S_boolean, A.e)) >> ELSE <<>>)
+
+Cases == CASE Family = "C05" -> C05Cases [] Family = "C04v" -> C04vCases [] Family = "C06" -> C06Cases [] Family = "C04n" -> C04nCases [] Family = "C04s" -> C04sCases
            [] OTHER -> C07Cases
 Emit == (EmitOn /\ Ready) => EmitLine(Family, VDoc, [ns |-> <<>>, vars |-> <<>>, funcs |-> <<>>], Cases)
 =============================================================================
